@@ -156,6 +156,8 @@ class FlowGen:
         fl.signed = []
         for root in fl.roots[:3]:
             signer = SoftwareSigner(root)
+            if how == "nogrind":
+                signer = _NoGrind(root)
             if how == "software":
                 one = request_signatures(signer, fl.created)
                 cur = request_signatures(signer, cur)
@@ -205,10 +207,42 @@ class FlowGen:
             keys += list(pin.hd_key_paths) + list(pin.taproot_hd_key_paths)
         sat = satisfaction_sizer(keys)
 
+        from btclib.descriptors.miniscript import SpendContext
+
+        where = {(i.prev_out.tx_id, i.prev_out.vout): k for k, i in enumerate(fl.created.tx.vin)}
+
         def both(psbt_in, tx_in):
             r = miniscript_sizer(psbt_in, tx_in)
-            return r if r is not None else sat(psbt_in, tx_in)
+            if r is None:
+                r = sat(psbt_in, tx_in)
+            if r is not None:
+                return r
+            # a taproot input carrying leaf scripts: which spend it will be is the caller's knowledge, and this caller knows
+            k = where.get((tx_in.prev_out.tx_id, tx_in.prev_out.vout))
+            if k is None or not SHAPES[fl.shapes[k]][2] or not psbt_in.taproot_leaf_scripts:
+                return None
+            sig_len = 64 if fl.sighash[k] in (None, 0) else 65
+            if fl.shapes[k] == "tr-keypath-with-tree":
+                return [sig_len]
+            sigs = {key: bytes(sig_len) for key, (leaves, _origin) in psbt_in.taproot_hd_key_paths.items() if leaves}
+            spend = SpendContext(locktime=fl.created.tx.lock_time, sequence=tx_in.sequence, version=fl.created.tx.version)
+            _ss, witness = fl.descs[k].satisfy(sigs, fl.index[k], None, spend)
+            return [len(e) for e in witness.stack]
         return both
+
+
+def _NoGrind(root):
+    """The library's SoftwareSigner with ECDSA low-R grinding switched off (dsa.sign_(grind=False)): 72-byte signatures occur."""
+    from btclib.ecc import dsa
+    from btclib.psbt_signer import SoftwareSigner
+
+    class NoGrind(SoftwareSigner):
+        def sign_ecdsa(self, pub_key, origin, msg_hash):
+            prv_key = self._prv_key(pub_key, origin)
+            if prv_key is None:
+                return None
+            return dsa.sign_(msg_hash, prv_key, grind=False).serialize()
+    return NoGrind(root)
 
 
 def core_tx(tx):
